@@ -320,6 +320,12 @@ func reach(tag string) {
 
 func newInput(name string, kind types.BasicKind) value {
 	w, _ := kindInfo(kind)
+	if pinnedModel != nil {
+		if kind == types.Bool {
+			return pinnedModel[name] != 0
+		}
+		return termToVal(mkBV(w, pinnedModel[name]), kind)
+	}
 	if i, ok := px.inputIx[name]; ok {
 		in := px.inputs[i]
 		if in.kind != kind {
@@ -408,48 +414,8 @@ func exploreHarness(i *interpreter, name string, fn value, budget time.Duration)
 		prefix := work[len(work)-1]
 		work = work[:len(work)-1]
 		out := runPath(i, fn, prefix)
-		hres.Paths++
-		hres.Steps += int64(px.steps)
-		if len(px.trace) > hres.MaxDecisions {
-			hres.MaxDecisions = len(px.trace)
-		}
 		work = append(work, px.newWork...)
-		switch out.kind {
-		case "ok":
-			hres.PathsOK++
-		case "abort", "abort-outside-model":
-			key := out.detail
-			if out.kind == "abort-outside-model" {
-				key = "OUTSIDE-MODEL: " + key
-			}
-			hres.PathsAborted[key]++
-		case "panic":
-			hres.PathsPanicked++
-			tag := "no-panic"
-			o := oblig(tag)
-			o.Reached++
-			o.Violated++
-			if o.Violated == 1 {
-				// the path condition is satisfiable by construction; fetch a model under it
-				solver.Push()
-				for _, c := range px.pc {
-					solver.Assert(c)
-				}
-				m := map[string]uint64{}
-				if solver.Check() == resSat {
-					m = currentModel()
-				}
-				solver.Pop()
-				hres.Violations = append(hres.Violations, violation{Tag: tag, Model: m, Msg: out.detail, Harness: name,
-					Trace: append([]decision{}, px.trace...)})
-			}
-		case "engine":
-			msg := out.detail
-			if len(hres.EngineErrors) < 5 {
-				hres.EngineErrors = append(hres.EngineErrors, msg)
-			}
-			hres.PathsAborted["ENGINE: "+firstLine(msg)]++
-		}
+		accountPath(name, out)
 		px = nil
 	}
 	hres.Queries = solver.queries - q0
